@@ -195,8 +195,8 @@ type Cfg struct {
 }
 
 func cfgTerm(c *Cfg) string {
-	return fmt.Sprintf("(mkC %s %s %d %d %d %d %d %s 8)",
-		vk.Bool(c.Synced), vk.Bool(c.Embedded), c.Version, c.MaxActive, c.MaxEntries, c.MaxKey, c.MaxVal, vk.Bool(c.Ext0))
+	return fmt.Sprintf("(mkC %s %s %d %d %d %d %d %s 8 %s)",
+		vk.Bool(c.Synced), vk.Bool(c.Embedded), c.Version, c.MaxActive, c.MaxEntries, c.MaxKey, c.MaxVal, vk.Bool(c.Ext0), vk.Bool(c.Prealloc))
 }
 
 func b2i(b bool) int {
